@@ -33,3 +33,36 @@ Theorem C03_flag_index : forall ns nc (ch : list bool) i s, (i < nc)%nat -> (s <
   nth (i * ns + s) (to_cell_major false ns nc ch) false = nth (s * nc + i) ch false.
 Proof. exact (@to_cell_major_nth bool false). Qed.
 Print Assumptions C03_flag_index.
+
+(* ---- stochastic engines and RDSystem.apply_reaction ---- *)
+From Verif Require Import Stochastic StochasticFacts.
+
+(* no event (reaction firing or molecule move, with any multiplicity) changes a flagged entry *)
+Theorem C03_event_frozen : forall T x en i0 s0, wf_state T x -> event_in_range T (fst en) ->
+  (i0 < nC T)%nat -> (s0 < nS T)%nat -> Chs T i0 s0 = true ->
+  X T (apply_event T x en) i0 s0 = X T x i0 s0.
+Proof. exact event_frozen. Qed.
+Print Assumptions C03_event_frozen.
+
+Theorem C03_events_frozen : forall T evs x i0 s0, wf_state T x -> (forall en, In en evs -> event_in_range T (fst en)) ->
+  (i0 < nC T)%nat -> (s0 < nS T)%nat -> Chs T i0 s0 = true ->
+  X T (apply_events T evs x) i0 s0 = X T x i0 s0.
+Proof. exact events_frozen. Qed.
+Print Assumptions C03_events_frozen.
+
+(* a reaction firing changes exactly the unflagged entries of its own cell, by n * (products - substrates) *)
+Theorem C03_reaction_effect : forall T x i r n i' s', wf_state T x -> (i < nC T)%nat -> (i' < nC T)%nat -> (s' < nS T)%nat ->
+  X T (apply_react T x i r n) i' s' =
+  if Nat.eqb i i' && negb (Chs T i s') then X T x i' s' + QcZ (Sto T s' r) * n else X T x i' s'.
+Proof. exact X_apply_react. Qed.
+Print Assumptions C03_reaction_effect.
+
+(* a move takes n from the source unless it is flagged and gives n to the destination unless it is flagged *)
+Theorem C03_move_effect : forall T x i s j n i' s', wf_state T x -> (i < nC T)%nat -> (s < nS T)%nat -> (j < nC T)%nat ->
+  (i' < nC T)%nat -> (s' < nS T)%nat ->
+  X T (apply_move T x i s j n) i' s' =
+  X T x i' s'
+  + (if Nat.eqb i i' && Nat.eqb s s' && negb (Chs T i s) then - n else 0)
+  + (if Nat.eqb j i' && Nat.eqb s s' && negb (Chs T j s) then n else 0).
+Proof. exact X_apply_move. Qed.
+Print Assumptions C03_move_effect.
